@@ -375,6 +375,40 @@ def r10_7_8(ctx, with_r10_8: bool = True) -> None:
               construct="default now")
 
 
+def r10_11(ctx) -> None:
+    """R10.11  the verdict on a claims set is a function of (options, now, leeway, claims): after construction a registry is only read.  No method of
+    the claims registries other than `__init__` stores on the instance, on the class (`cls.x = ...`, `type(self).x = ...`, a mutated class-level
+    container) or on a module-level object - a memo kept on the class is shared by the subclasses that inherit the attribute, so what one registry
+    class computed first decides what another one does later."""
+    eng = ctx.eng
+    P = eng.prog
+    fx = Effects(P, eng.cg)
+    cr = P.cls("rfc7519.registry:ClaimsRegistry")
+    n = 0
+    for c in [cr] + cr.all_subclasses():
+        for nm, m in sorted(c.methods.items()):
+            # everything the method can reach inside the claims module counts (a helper that does the store for it)
+            todo, seen = [m], {m}
+            while todo:
+                f = todo.pop()
+                for s_ in eng.cg.calls_in(f):
+                    for g in s_.callees:
+                        if g not in seen and g.module.short.startswith("rfc7519"):
+                            seen.add(g)
+                            todo.append(g)
+            for f in seen:
+                for ef in fx.of(f):
+                    n += 1
+                    kinds = {r.kind for r in ef.roots}
+                    shared = kinds & {"cls", "global"}
+                    on_self = "self" in kinds and f.name != "__init__"
+                    ctx.check(not shared and not on_self, "R10.11", f, ef.node, f"{m.short} :: {norm(ef.node)[:60]}",
+                              f"`{norm(ef.node)[:70]}` stores on {'the class / a module-level object' if shared else 'the registry instance outside __init__'}: "
+                              "a later validation (of this or an inheriting registry class) depends on what was validated before", "registries are only read after construction",
+                              construct=f"registry state written in {f.short}")
+    ctx.count("R10.11", n, 2, "stores in the claims registries")
+
+
 def r10_9(ctx) -> None:
     """R10.9  "otherwise it raises the error of the matching class": the exception flow (S9) of validate() and of every validate_<claim> method lets
     only the library's claim errors (subclasses of JoseError) escape - nothing that formats, converts or compares a claim value on the way to the
@@ -615,5 +649,6 @@ def run(ctx) -> None:
     ctx.guard(r10_7_8, folded is None)
     ctx.guard(r10_9)
     ctx.guard(r10_10)
+    ctx.guard(r10_11)
     ctx.assume("Python comparison semantics on the claim values (exotic value types are outside the statement)")
     ctx.note("whether exp == now - leeway is still valid is left open by the statement: both `<` and `<=` are accepted for exp")
